@@ -20,14 +20,31 @@ impl FixtureDatabase {
         let file_path = self.get_canonical_path(file_path);
         self.analyze_file_internal(file_path.clone(), content, true);
         // An edit may start importing a module the workspace scan never reached
-        // (a scan that is still running follows the imports itself)
-        if self
-            .scans_in_progress
-            .load(std::sync::atomic::Ordering::SeqCst)
-            == 0
+        self.analyze_unseen_imported_modules(&file_path);
+    }
+
+    /// Analyse an imported module from disk unless the index has it already. Inserting its
+    /// text into the text cache is the claim: of several threads that follow an import to
+    /// the same module at the same time (two notifications, or a notification and the
+    /// workspace scan) exactly one analyses it. Returns whether this call did.
+    pub(crate) fn analyze_imported_module_once(&self, module_path: &Path) -> bool {
+        if self.file_definitions.contains_key(module_path) || self.imports.contains_key(module_path)
         {
-            self.analyze_unseen_imported_modules(&file_path);
+            return false;
         }
+        let Ok(content) = std::fs::read_to_string(module_path) else {
+            debug!("Failed to read imported module {:?}", module_path);
+            return false;
+        };
+        match self.file_cache.entry(module_path.to_path_buf()) {
+            dashmap::mapref::entry::Entry::Occupied(_) => return false,
+            dashmap::mapref::entry::Entry::Vacant(vacant) => {
+                vacant.insert(std::sync::Arc::new(content.clone()));
+            }
+        }
+        debug!("Analyzing imported module: {:?}", module_path);
+        self.analyze_file_internal(module_path.to_path_buf(), &content, false);
+        true
     }
 
     /// Follow the imports (star imports, explicit imports, `pytest_plugins`) of a file that
@@ -65,15 +82,7 @@ impl FixtureDatabase {
                     continue;
                 };
                 let resolved = self.get_canonical_path(resolved);
-                if self.file_cache.contains_key(&resolved)
-                    || self.file_definitions.contains_key(&resolved)
-                    || self.imports.contains_key(&resolved)
-                {
-                    continue; // already indexed
-                }
-                if let Ok(module_content) = std::fs::read_to_string(&resolved) {
-                    debug!("Analyzing newly imported module: {:?}", resolved);
-                    self.analyze_file_internal(resolved.clone(), &module_content, true);
+                if self.analyze_imported_module_once(&resolved) {
                     pending.push(resolved);
                 }
             }
